@@ -32,6 +32,12 @@ def grammars(tier, seed, n_random=1500, exhaustive_prods=3):
     for i in range(n_random // 3):
         yield S.random_nullable_heavy(rng3), 'random nullable-heavy, 3-5 variables'
     for i in range(n_random // 10):
+        # variables that carry the names the binarisation would hand out next (C#CNF#1, C#CNF#2, ...), with bodies long enough to need new variables
+        vs = ['S', 'C#CNF#1', 'C#CNF#2'] if rng3.random() < 0.7 else ['S', 'C#CNF#1', 'C#CNF#2', 'C#CNF#3']
+        g = S.random_grammar(rng3, vs, ['a', 'b'], 4, rng3.choice([3, 4, 5]))
+        extra = {(S.V('S'), tuple(rng3.choice([S.V(v) for v in vs[1:]] + [S.T('a'), S.T('b')]) for _ in range(rng3.choice([3, 4]))))}
+        yield S.mk(g[0], set(g[1]) | extra), 'random, variables named like fresh CNF variables'
+    for i in range(n_random // 10):
         # terminals (and variables) whose values differ but print alike: 1 and '1' - names derived from str(value) must not merge them
         ts = rng3.choice([[1, '1'], [1, '1', 'a'], ['a', 2, '2']]); vs = ['S', 'A'] if rng3.random() < 0.7 else ['S', 3, '3']
         yield S.random_grammar(rng3, vs, ts, rng3.choice([2, 3]), rng3.choice([2, 3, 4])), 'random, values that print alike'
